@@ -60,7 +60,20 @@ def run_one(name):
     return res
 
 
+def private_lean_dir():
+    """The seeded runs regenerate `Generated/*.lean` from the MUTATED sources; do that in a private copy
+    of the lake project so that the project of record (and concurrent checks) is never disturbed."""
+    if os.environ.get('VERIF_LEAN_DIR'):
+        return os.environ['VERIF_LEAN_DIR']
+    dst = os.path.join(VERIF, '.cache', 'seeded-lean')
+    os.makedirs(dst, exist_ok=True)
+    r = sh(['rsync', '-a', '--delete', os.path.join(VERIF, 'lean') + '/', dst + '/'])
+    assert r.returncode == 0, r.stdout
+    return dst
+
+
 def main():
+    os.environ['VERIF_LEAN_DIR'] = private_lean_dir()
     sd = os.path.join(VERIF, 'seeded')
     names = sys.argv[1:] or sorted(n for n in os.listdir(sd) if os.path.isdir(os.path.join(sd, n)))
     out_path = os.path.join(sd, 'RESULTS.json')
